@@ -49,18 +49,6 @@ theorem allTrue_foldl_setAt (idx : List Nat) (l : List Bool) (h : allTrue l = tr
 
 /-! ### stop -/
 
-theorem status_stopped_iff (s : St) : s.status = .stopped ↔ s.errC = false := by
-  unfold St.status
-  cases s.errC <;> simp
-  repeat' split
-  all_goals simp
-
-theorem status_stopping_iff (s : St) : s.status = .stopping ↔ s.errC = true ∧ s.stopAnn = true := by
-  unfold St.status
-  cases s.errC <;> cases s.stopAnn <;> simp
-  repeat' split
-  all_goals simp
-
 /-- After `stop` the torrent is stopped or waits for its stop announcer. -/
 theorem stop_idle (s : St) (e : Bool) : (s.stop e).errC = false ∨ (s.stop e).stopAnn = true := by
   rw [stop_eq]
